@@ -10,12 +10,17 @@ import BctVerif.Props.CoresBfs
 import BctVerif.Props.CoresReach
 import BctVerif.Props.CoresBetw
 import BctVerif.Props.CoresEbc
+import BctVerif.Props.CoresBwei
+import BctVerif.Props.CoresClust
+import BctVerif.Props.CoresChar
+import BctVerif.Props.CoresEff
+import BctVerif.Props.CoresWalks
 
 /-!
 # T-gen for core update steps — the link theorems in one place
 
 `translate/cores.py` re-extracts, on every check run, the statements of a further set of bct routines from `/repo`'s
-current source into `BctVerif/Gen/Cores{Floyd,Peel,Util,Comp,Dijk,Path,Bin,Bfs,Reach,Betw}.lean`, each with one `decide` obligation per routine.  The
+current source into `BctVerif/Gen/Cores{Floyd,Peel,Util,Comp,Dijk,Path,Bin,Bfs,Reach,Betw,Clust,Char,Eff,Walks}.lean`, each with one `decide` obligation per routine.  The
 modules imported here prove, once and for all extracted values, what a passed obligation means (`notes/TGEN.md`):
 
 | family | IR + interpreter | link theorems (this directory) | model functions reached |
@@ -27,7 +32,12 @@ modules imported here prove, once and for all extracted values, what a passed ob
 | path (C12) | `Model/CoreIRPath.lean` | `CoresPath`: `loop_spec`, `link_retrieve` | `Dist.retrieve`, `Dist.retrieveGo` |
 | bin (C03) | `Model/CoreIRBin.lean` | `CoresBin`: `body_spec`, `loop_spec`, `link_distance_bin` | `Dist.boolMul`, `Dist.binLoop`, `Dist.binRaw`, `Dist.distBin` |
 | bfs (C03) | `Model/CoreIRBfs.lean` | `CoresBfs`: `quirk_step`, `paint_step`, `visit_step`, `inner_spec`, `pass_spec`, `loop_spec`, `link_breadth`, `link_breadth_model`, `link_breadthdist` | `Dist.quirk`, `paint`, `visit`, `blackenSt`, `bfsLoop`, `breadth`, `breadthdist` |
+| betw (C08), weighted | `Model/CoreIRBwei.lean` | `CoresBwei`: `relax_spec`, `visit_spec`, `settle_spec`, `head_spec`, `tail_spec`, `while_spec`, `init_spec`, `depN_spec`, `forBWN_spec`, `srcN_spec`, `sourcesN_spec`, `link_betweenness_wei`; `whileTrue_edge`, `depE_spec`, `forBWE_spec`, `srcE_spec`, `sourcesE_spec`, `link_edge_betweenness_wei` | `Between.relaxW`, `push`, `settle true`, `weiBatch`, `weiNext`, `weiLoop`, `fillFront`, `backInnerN`, `backOuterN`, `sourceN`, `betweennessWei`; `backInner`, `backOuter`, `source true`, `brandes true` |
 | betw (C08) | `Model/CoreIRBetw.lean`, `Model/CoreIREbc.lean` | `CoresBetw`: `body_spec`, `loop_spec`, `mid_spec`, `back_spec`, `for_spec`, `link_betweenness_bin`; `CoresEbc`: `relax_spec`, `visit_spec`, `settle_spec`, `round_spec`, `fill_spec`, `while_spec`, `dep_spec`, `forBV_spec`, `runBW_spec`, `back_spec`, `src_spec`, `sources_spec`, `link_edge_betweenness_bin` | `Between.binLoop`, `binBack`, `betweennessBin`; `push`, `relaxB`, `settle false`, `bfsLoop`, `fillFront`, `backInner`, `backOuter`, `source false`, `brandes false` |
+| char (C03) | `Model/CoreIRChar.lean` | `CoresChar`: `pre_spec`, `tail_spec`, `meanC_spec`, `rowMax_spec`, `link_charpath` | `Dist.charpath`, `meanExt`, `eccCells`, `eccOf`, `radiusDiameter` |
+| eff (C03) | `Model/CoreIREff.lean` (statement language of `Model/CoreIRBin.lean`) | `CoresEff`: `body_spec`, `loop_spec`, `inner_spec`, `sumExt_offDiag`, `link_efficiency_bin` | `Dist.binLoop`, `binRaw`, `distBin`, `meanInvOff`, `efficiencyBin` |
+| walks (C18) | `Model/CoreIRWalks.lean` (expressions of `Model/CoreIRClust.lean`) | `CoresWalks`: `pre_spec`, `tail_spec`, `link_pagerank`, `link_pagerank_model`, `solve_diag_unique`, `link_mfpt_model` | `Walks.colDeg`, `prMat`, `prior`, `solves`, `pagerank`; `Walks.transition`, `fundArg`, `isInvOf`, `mfpt` |
+| clust (C09) | `Model/CoreIRClust.lean` | `CoresClust`: `perNode_cell`, `link_cc_bd`, `link_cc_wd`, `link_cc_wu`, `link_cc_bu`, `link_trans_bd`, `link_trans_bu`, `link_trans_wd`, `link_trans_wu` | `Cluster.ccBd`, `ccWd`, `ccWu`, `ccBu`, `transBd`, `transBu`, `transWd`, `transWu` (`perNode`, `gdiv`, `ccFagiolo`, `transFagiolo`) |
 | reach (C03) | `Model/CoreIRReach.lean` | `CoresReach`: `step_spec`, `rec_spec`, `link_reachdist` | `Dist.reachStep`, `reachGo`, `reachOutCell`, `reachdist` |
 | util (C17, C06) | `Model/CoreIRUtil.lean` | `CoresUtil`: `link_teachers_round`, `link_threshold_absolute`, `link_binarize`, `link_normalize`, `link_invert`, `link_logtransform`, `link_cuberoot`, `link_pick_four`, `link_weight_conversion`; `CoresTp` (`Model/CoreIRTp.lean`): `link_threshold_proportional` | `Thresh.teachersRound/thresholdAbsolute/binarize/normalize/invert/weightConversion/thresholdProportional`, `Signed.pickFour` |
 
